@@ -111,6 +111,115 @@ def c27(idx: Index, rep: Report, tier: str) -> None:
 
 
 # ------------------------------------------------------------------------------------ C28
+# ------------------------------------------------------------------------------------ sibling branches / fixpoints
+_TWIN_SWAPS = [("Minus", "Plus"), ("decrease", "increase"), ("Decrease", "Increase"), ("DECREASE", "INCREASE")]
+
+
+def _twin_text(t: str) -> str:
+    for a, b in _TWIN_SWAPS:
+        t = t.replace(a, b)
+    return t
+
+
+def _read_paths(stmts: List[ast.stmt]) -> Set[str]:
+    """The maximal access paths (name / attribute / subscript chains) a block reads."""
+    out: Set[str] = set()
+
+    def visit(n: ast.AST, top: bool):
+        if isinstance(n, (ast.Name, ast.Attribute, ast.Subscript)) and isinstance(getattr(n, "ctx", None), ast.Load):
+            if top:
+                out.add(_twin_text(norm(n)))
+            if isinstance(n, ast.Subscript):
+                visit(n.value, False)
+                visit(n.slice, True)
+            elif isinstance(n, ast.Attribute):
+                visit(n.value, False)
+            return
+        for c in ast.iter_child_nodes(n):
+            visit(c, True)
+
+    for st in stmts:
+        visit(st, True)
+    return out
+
+
+def _if_chain(i: ast.If):
+    out = [(i.test, i.body)]
+    while len(i.orelse) == 1 and isinstance(i.orelse[0], ast.If):
+        i = i.orelse[0]
+        out.append((i.test, i.body))
+    return out
+
+
+def increase_decrease_twins(rep: Report, rule: str, funcs: List[FuncInfo]) -> int:
+    """An `if e.is_increase(): … elif e.is_decrease(): …` pair treats the two kinds of numeric update symmetrically:
+    the decrease branch reads the same operands as the increase branch (only the operator differs)."""
+    n = 0
+    for f in funcs:
+        inner = set()
+        for i in walk_no_nested(f.node):
+            if not isinstance(i, ast.If) or id(i) in inner:
+                continue
+            ch = _if_chain(i)
+            x = i
+            while len(x.orelse) == 1 and isinstance(x.orelse[0], ast.If):
+                x = x.orelse[0]
+                inner.add(id(x))
+            def q(t, name):
+                return isinstance(t, ast.Call) and isinstance(t.func, ast.Attribute) and t.func.attr == name and not t.args
+            inc = [(t, b) for t, b in ch if q(t, "is_increase")]
+            dec = [(t, b) for t, b in ch if q(t, "is_decrease")]
+            if not inc or not dec or norm(inc[0][0].func.value) != norm(dec[0][0].func.value):
+                continue
+            n += 1
+            a, b = _read_paths(inc[0][1]), _read_paths(dec[0][1])
+            ok = a == b
+            rep.check(ok, rule, f"the decrease branch of the update of `{norm(inc[0][0].func.value)}` reads what the increase branch reads", f.loc(dec[0][0]), construct=f"{norm(inc[0][0])} / {norm(dec[0][0])}: " + ("same operands" if ok else f"only one side reads {sorted(a ^ b)}"), detail="" if ok else "the two kinds of numeric update are compiled from different operands: one of them drops what the other accumulates (an earlier update of the same fluent, a condition, a timing), so a plan whose durative action both increases and decreases a fluent is converted for one kind and corrupted for the other", function=f.qualname)
+    return n
+
+
+def size_fixpoint_loops(rep: Report, rule: str, funcs: List[FuncInfo]) -> int:
+    """`while after > before:` loops that iterate until a collection stops growing: both measures are `len()` of the
+    same collection, `before` taken before the pass touches it and `after` when the pass is over."""
+    n = 0
+    for f in funcs:
+        for w in walk_no_nested(f.node):
+            if not (isinstance(w, ast.While) and isinstance(w.test, ast.Compare) and len(w.test.ops) == 1 and isinstance(w.test.left, ast.Name) and isinstance(w.test.comparators[0], ast.Name) and isinstance(w.test.ops[0], (ast.Gt, ast.Lt, ast.NotEq))):
+                continue
+            l, r = w.test.left.id, w.test.comparators[0].id
+            after, before = (l, r) if not isinstance(w.test.ops[0], ast.Lt) else (r, l)
+            asg = {after: [], before: []}
+            for pos, st in enumerate(w.body):
+                for a in ast.walk(st):
+                    if isinstance(a, ast.Assign) and len(a.targets) == 1 and isinstance(a.targets[0], ast.Name) and a.targets[0].id in asg:
+                        asg[a.targets[0].id].append((pos, st is a, a))
+            if not asg[after] or not asg[before]:
+                continue
+            lens = [a.value for v in asg.values() for _, _, a in v if isinstance(a.value, ast.Call) and call_name(a.value) == "len" and len(a.value.args) == 1]
+            if not lens:
+                continue  # not a loop on the size of a collection
+            n += 1
+            coll = norm(lens[0].args[0])
+            def is_len(a):
+                return isinstance(a.value, ast.Call) and call_name(a.value) == "len" and len(a.value.args) == 1 and norm(a.value.args[0]) == coll
+            problems = []
+            for nm in (before, after):
+                for pos, top, a in asg[nm]:
+                    if not is_len(a):
+                        problems.append(f"{nm} = {norm(a.value)} is not len({coll})")
+                    elif not top:
+                        problems.append(f"{nm} is measured inside a nested block")
+            touches = [pos for pos, st in enumerate(w.body) if any(isinstance(c, ast.Call) and isinstance(c.func, ast.Attribute) and norm(c.func.value) == coll and c.func.attr in ("add", "update", "append", "extend", "insert", "setdefault", "__setitem__") for c in ast.walk(st)) or any(isinstance(t, ast.Subscript) and isinstance(t.ctx, ast.Store) and norm(t.value) == coll for t in ast.walk(st))]
+            if touches and not problems:
+                if any(pos > min(touches) for pos, _, _ in asg[before]):
+                    problems.append(f"{before} is measured after the pass has started to extend {coll}")
+                if any(pos < max(touches) for pos, _, _ in asg[after]):
+                    problems.append(f"{after} is measured before the pass has finished to extend {coll}")
+            ok = not problems
+            rep.check(ok, rule, f"the loop runs until a whole pass leaves `{coll}` unchanged", f.loc(w), construct=f"while {norm(w.test)}: " + (f"{before} = len({coll}) … {after} = len({coll})" if ok else "; ".join(problems)), detail="" if ok else f"the loop is meant to stop when a pass adds nothing to {coll}; with this measure it can stop although the last pass did add elements, and the elements only a further pass would find (dependencies listed before what they depend on) are missing from the result", function=f.qualname)
+    return n
+
+
 def c28(idx: Index, rep: Report, tier: str) -> None:
     """plan_back_conversion_callable evaluates fluent-dependent duration bounds in a simulated state; the state must
     be advanced once per plan step: no path through the body of the loop over the plan's actions may return to the
@@ -138,6 +247,12 @@ def c28(idx: Index, rep: Report, tier: str) -> None:
         rep.check(w is None, rule, "every iteration over the plan's actions advances the simulated state", f.loc(l.owner), construct=f"for {norm(l.owner.target)} in {norm(l.owner.iter)[:40]}: " + ("every path applies the action" if w is None else "a path skips simulator.apply"), detail="" if w is None else "an iteration can end (continue / fall through) without applying the action to the simulated state: the duration bounds of the following durative actions are evaluated in a stale state and the reconstructed plan is rejected by the time-triggered validator", function=f.qualname, path=path_text(w) if w else None)
     rep.count("plan_loops_with_state", n)
     rep.require_min(rule, "plan_loops_with_state", 1)
+
+    rule_t = "C28.5 sibling increase-decrease-branches-agree"
+    tts = [fi for fi in idx.all_funcs() if fi.module.name == "unified_planning.engines.compilers.timed_to_sequential"]
+    nt = increase_decrease_twins(rep, rule_t, tts)
+    rep.count("increase_decrease_pairs", nt)
+    rep.require_min(rule_t, "increase_decrease_pairs", 3)
 
 
 # ------------------------------------------------------------------------------------ C20
@@ -445,6 +560,13 @@ def c31(idx: Index, rep: Report, tier: str) -> None:
     rep.count("variant_splits", nb)
     rep.require_min(rule_b, "variant_splits", 1)
 
+    # (c) the set of fluents whose value may come from an interpreted function is a least fixpoint
+    rule_c = "C31.6 fixpoint-loop-measures-the-collection"
+    ifr = [fi for fi in idx.all_funcs() if fi.module.name == "unified_planning.engines.compilers.interpreted_functions_remover"]
+    nc = size_fixpoint_loops(rep, rule_c, ifr)
+    rep.count("size_fixpoint_loops", nc)
+    rep.require_min(rule_c, "size_fixpoint_loops", 1)
+
 
 # ------------------------------------------------------------------------------------ C33
 class _SetInterp:
@@ -717,6 +839,40 @@ def c32(idx: Index, rep: Report, tier: str) -> None:
 
     factory_threads_kind(idx, rep, "C32.5 def-use pipeline-stage-selected-for-the-running-kind")
 
+    # the kind the candidate engines are tested against is the kind that was asked for: inside the factory the
+    # `problem_kind` parameter is only ever replaced by what a selected compiler stage turns it into, and no kind is
+    # re-labelled with another version (ProblemKind(k.features, version=v) skips the upgrade of the deprecated features)
+    rule_k = "C32.6 def-use requested-kind-not-rewritten"
+    fac = idx.cls("engines.factory.Factory")
+    nk = 0
+    for f in fac.methods.values():
+        kparams = [a.arg for a in f.node.args.args + f.node.args.kwonlyargs if a.annotation is not None and norm(a.annotation).split(".")[-1] in ("ProblemKind", "Optional[ProblemKind]")]
+        for kp in kparams:
+            nk += 1
+            for a in walk_no_nested(f.node):
+                tg = []
+                if isinstance(a, ast.Assign):
+                    tg = [t for t in a.targets if isinstance(t, ast.Name) and t.id == kp]
+                elif isinstance(a, (ast.AugAssign, ast.AnnAssign)) and isinstance(a.target, ast.Name) and a.target.id == kp:
+                    tg = [a.target]
+                if not tg:
+                    continue
+                v = a.value
+                ok = isinstance(v, ast.Call) and call_name(v) == "resulting_problem_kind" and v.args and norm(v.args[0]) == kp
+                rep.check(ok, rule_k, f"`{kp}` is replaced only by the result of a selected compiler stage", f.loc(a), construct=f"{kp} = {norm(v)[:90] if v is not None else '?'}", detail="" if ok else "the requested kind is rewritten before the candidates are tested: engines are then checked against another kind than the one the caller asked for, and an engine that does not support the request can be returned", function=f.qualname)
+    for f in [x for x in idx.all_funcs() if x.module.name == "unified_planning.engines.factory"]:
+        for c in walk_no_nested(f.node):
+            if isinstance(c, ast.Call) and call_name(c) == "ProblemKind" and c.args:
+                srcs = {norm(x.value) for x in ast.walk(c.args[0]) if isinstance(x, ast.Attribute) and x.attr in ("features", "_features")}
+                ver = [k.value for k in c.keywords if k.arg == "version"] + list(c.args[1:2])
+                if not srcs:
+                    continue
+                nk += 1
+                ok = len(srcs) == 1 and ver and norm(ver[0]) in {f"{x}.version" for x in srcs} | {f"{x}._version" for x in srcs}
+                rep.check(bool(ok), rule_k, "a kind rebuilt from another kind's features keeps that kind's version", f.loc(c), construct=norm(c)[:100], detail="" if ok else "features are only meaningful in the version they were written in: re-labelling them with another version skips the upgrade (equalize_versions), deprecated features silently stop counting and the engines are tested against a weaker kind", function=f.qualname)
+    rep.count("kind_parameters", nk)
+    rep.require_min(rule_k, "kind_parameters", 8)
+
 
 # ------------------------------------------------------------------------------------ C36
 def c36(idx: Index, rep: Report, tier: str) -> None:
@@ -741,6 +897,39 @@ def c36(idx: Index, rep: Report, tier: str) -> None:
         return bool(nds) and bool(fnodes) and any(cfg.path_avoiding(fn, nd, set()) is not None for fn in fnodes for nd in nds)
     later = [c for c in walk_no_nested(cs.node) if c is not filtered[0] and _after(c) and ( (isinstance(c, ast.Call) and isinstance(c.func, ast.Attribute) and c.func.attr in ("setdefault", "update", "pop", "__setitem__") and norm(c.func.value) == "self._values") or (isinstance(c, ast.Assign) and any(isinstance(t, ast.Subscript) and norm(t.value) == "self._values" for t in c.targets)))]
     rep.check(not later, rule, "nothing is merged into self._values after the default-valued entries were dropped", cs.loc(later[0]) if later else cs.loc(), construct=norm(later[0])[:80] if later else "no insertion besides the filtered assignment", detail="" if not later else "an ancestor's entries are added after the filter: a fluent that a descendant set back to its default (dropped by the filter) gets the ancestor's older value again; hash, equality and get_value change with the history", function=cs.qualname)
+
+    # equality is decided on condensed maps only: the raw `_values` of a state that still has a father is a delta
+    # (it may re-state inherited values), so any answer other than False must come after both operands were hashed
+    rule6 = "C36.6 T2 equality-only-after-condensation"
+    eq = idx.func("model.state.UPState.__eq__")
+    ecfg = cfg_of(eq)
+    n6 = 0
+    for nd in ecfg.nodes:
+        if nd.kind != "return" or nd.ast.value is None:
+            continue
+        v = nd.ast.value
+        if isinstance(v, ast.Constant) and v.value in (False, NotImplemented):
+            continue
+        if isinstance(v, ast.Name) and v.id == "NotImplemented":
+            continue
+        n6 += 1
+        gs = [(t.ast, o) for t, o in guards_dominating(ecfg, nd)]
+        def hashes(t, outcome=True):
+            """The test, taken with this outcome, establishes hash(self) == hash(other)."""
+            if isinstance(t, ast.UnaryOp) and isinstance(t.op, ast.Not):
+                return hashes(t.operand, not outcome)
+            if isinstance(t, ast.BoolOp):
+                return isinstance(t.op, ast.And if outcome else ast.Or) and any(hashes(x, outcome) for x in t.values)
+            if isinstance(t, ast.Compare) and len(t.ops) == 1 and isinstance(t.ops[0], ast.Eq if outcome else ast.NotEq):
+                hs_ = {norm(c.args[0]) for c in (t.left, t.comparators[0]) if isinstance(c, ast.Call) and call_name(c) == "hash" and len(c.args) == 1}
+                return len(hs_) == 2 and "self" in hs_
+            return False
+        same = any(o and isinstance(t, ast.Compare) and isinstance(t.ops[0], ast.Is) and "self" in (norm(t.left), norm(t.comparators[0])) for t, o in gs)
+        inline = isinstance(v, ast.BoolOp) and isinstance(v.op, ast.And) and any(hashes(x) for x in v.values[:-1])
+        ok = same or inline or any(hashes(t, bool(o)) for t, o in gs)
+        rep.check(ok, rule6, "a state is declared equal to another only after both were condensed (hashed)", eq.loc(nd.ast), construct=norm(nd.ast)[:90] + ("" if ok else " — reachable without hash(self) == hash(oth)"), detail="" if ok else "the un-condensed `_values` of a child is only its own updates: two children that agree on every fluent but re-state an inherited value differently compare unequal (and the answer changes once they are hashed)", function=eq.qualname)
+    rep.count("equality_answers", n6)
+    rep.require_min(rule6, "equality_answers", 1)
 
 
 # ------------------------------------------------------------------------------------ C38
